@@ -11,7 +11,19 @@ Local Open Scope N_scope.
 Definition facts_ok (F : facts) : Prop :=
   f_cache_checked F = true /\ f_lock_purges_cache F = true /\ f_lock_wipes_wscripts F = true /\
   f_lock_wipes_last F = true /\ f_unlock_skips_keyless F = true /\ f_keyless_not_queued F = true /\
-  f_change_rejects_empty F = true /\ f_privkey_checks_first F = true /\ f_unlock_preloads F = true.
+  f_change_rejects_empty F = true /\ f_privkey_checks_first F = true /\ f_unlock_preloads F = true /\
+  (* lock() zeroes what it drops and what it clears in place *)
+  f_z_acct F = true /\ f_z_key F = true /\ f_z_script F = true /\ f_z_cache F = true /\ f_z_mgr F = true.
+
+(* the operations that drop objects from the manager's state while it is
+   unlocked wipe them first.  NOT part of [facts_ok]: see Properties/C05.v. *)
+Definition evict_ok (F : facts) : Prop :=
+  f_e_markused F = true /\ f_e_invalidate F = true /\ f_e_next F = true /\ f_e_unlock F = true.
+
+(* a state differs from another one only in the record of dropped buffers *)
+Lemma eq_upto_gone_Inv_aux (s s' : state) : sd s' = sd s -> sm s' = sm s ->
+  locked s' = locked s /\ watch s' = watch s.
+Proof. intros _ H. unfold locked, watch. rewrite H. auto. Qed.
 
 (* ------------------------------------------------------------------ equality tests *)
 
@@ -186,9 +198,10 @@ Qed.
 
 Lemma Wiped_lock_mem F m :
   f_lock_purges_cache F = true -> f_lock_wipes_wscripts F = true -> f_lock_wipes_last F = true ->
+  f_z_mgr F = true ->
   Wiped (lock_mem F m).
 Proof.
-  intros H2 H3 H4. unfold Wiped, lock_mem; simpl. repeat split.
+  intros H2 H3 H4 HZ. unfold Wiped, lock_mem; simpl. rewrite HZ. repeat split.
   - apply Forall_snd_avmap_all. intros ai; apply lock_ainfo_clean; exact H4.
   - apply Forall_snd_avmap_all. intros o; apply lock_aobj_clean; exact H3.
   - rewrite H2; reflexivity.
@@ -351,6 +364,13 @@ Proof.
   - intros _; constructor.
   - intros _. unfold Wiped; simpl. repeat split; constructor.
 Qed.
+
+(* the invariant does not look at the record of dropped buffers *)
+Lemma Inv_upto_gone s s' : sd s' = sd s -> sm s' = sm s -> Inv s -> Inv s'.
+Proof. unfold Inv, watch, locked. intros -> ->. auto. Qed.
+
+Lemma Inv_add_gone s g : Inv s -> Inv (add_gone s g).
+Proof. apply Inv_upto_gone; reflexivity. Qed.
 
 (* the parts of Wiped that do not concern the keys record *)
 Definition ObjsClean (m : mem) : Prop :=
@@ -689,12 +709,50 @@ Proof.
   intros HF HI. unfold do_derive_cache. rewrite HF. simpl.
   destruct (k_watch (mk (sm s))) eqn:EW; [intros H; inv H; auto|].
   destruct (k_locked (mk (sm s))) eqn:EL; [intros H; inv H; auto|].
-  destruct (existsb _ _); [intros H; inv H; auto|].
-  destruct (alookup pair_eqb (sc, acct) (m_accts (sm s))) as [ai|]; [|intros H; inv H; auto].
-  simpl. destruct (ai_priv ai); intros H; inv H; auto.
   destruct (Inv_parts _ HI) as [HC HQ].
-  apply (Inv_objs s); auto.
-  unfold locked. rewrite EL. discriminate.
+  assert (HU : forall c, Inv (with_mem s (mem_cache (sm s) c))).
+  { intros c. apply (Inv_objs s); auto. unfold locked. rewrite EL. discriminate. }
+  destruct (existsb _ _); [intros H; inv H; apply HU|].
+  destruct (alookup pair_eqb (sc, acct) (m_accts (sm s))) as [ai|]; [|intros H; inv H; auto].
+  simpl. destruct (ai_priv ai); intros H; inv H; auto. apply Inv_add_gone, HU.
+Qed.
+
+Lemma Inv_cache_fill_loop F sc acct br n : forall base s s' r,
+  f_cache_checked F = true -> Inv s -> cache_fill_loop F sc acct br base n s = (s', r) -> Inv s'.
+Proof.
+  induction n as [|n IH]; intros base s s' r HF HI; simpl.
+  - intros H; inv H; exact HI.
+  - destruct (do_derive_cache F sc acct br base s) as [s1 r1] eqn:E.
+    pose proof (Inv_derive_cache _ _ _ _ _ _ _ _ HF HI E) as HI1.
+    destruct r1; try (intros H; inv H; exact HI1). apply IH; assumption.
+Qed.
+
+Lemma Inv_cache_fill F sc acct br n base s s' r :
+  f_cache_checked F = true -> Inv s -> cache_fill F sc acct br base n s = (s', r) -> Inv s'.
+Proof.
+  intros HF HI. unfold cache_fill.
+  destruct (alookup pair_eqb (sc, acct) (m_accts (sm s))) as [ai|]; simpl;
+    [|apply Inv_cache_fill_loop; assumption].
+  destruct (k_locked (mk (sm s))) eqn:EL; simpl; [apply Inv_cache_fill_loop; assumption|].
+  match goal with |- context [if ?c then _ else _] => destruct c end;
+    [|apply Inv_cache_fill_loop; assumption].
+  intros H; inv H. apply Inv_add_gone. destruct (Inv_parts _ HI) as [HC HQ].
+  apply (Inv_objs s); auto. unfold locked. rewrite EL. discriminate.
+Qed.
+
+Lemma Forall_dqok_map d (f : qent -> qent) l :
+  (forall q, qent_acct (f q) = qent_acct q) -> Forall (dqok d) l -> Forall (dqok d) (map f l).
+Proof.
+  intros Hf HF. apply Forall_map. eapply Forall_impl; [|exact HF].
+  intros q (k & row & A & B & C). exists k, row; repeat split; auto. rewrite Hf; exact A.
+Qed.
+
+Lemma qent_acct_orphan_last sc acct i q : qent_acct (orphan_last sc acct i q) = qent_acct q.
+Proof.
+  destruct q as [| sc' acct' i' |]; simpl; auto.
+  destruct ((sc' =? sc) && (acct' =? acct) && bool_eq i' i) eqn:E; [|reflexivity].
+  apply andb_true_iff in E as [E _]. apply andb_true_iff in E as [E1 E2].
+  apply N.eqb_eq in E1, E2. subst. reflexivity.
 Qed.
 
 Lemma acct_clean_set_last internal a ai : acct_clean ai -> acct_clean (set_last internal (LAlias a) ai).
@@ -725,7 +783,8 @@ Proof.
   apply (Inv_objs s1); auto; simpl.
   - apply (Coh_dext (d_accts (sd s1))); [exact HDE|].
     apply (Coh_upsert _ _ _ _ ai); [exact HC | exact Hl | destruct internal; reflexivity].
-  - intros HW. apply Forall_app; split; [eapply Forall_dqok_ext; eauto|].
+  - intros HW. apply Forall_app; split;
+      [apply Forall_dqok_map; [apply qent_acct_orphan_last | eapply Forall_dqok_ext; eauto]|].
     apply Forall_app; split.
     + match goal with |- Forall _ (queue_if_public F ?e ?p ?q) =>
         destruct (queue_if_public_cases F e p q HF) as [-> | (He' & _ & ->)] end; [constructor|].
@@ -763,37 +822,31 @@ Proof.
   apply andb_true_iff in E as [E1 E2]. apply N.eqb_eq in E1, E2. subst. reflexivity.
 Qed.
 
-Lemma Forall_dqok_map d (f : qent -> qent) l :
-  (forall q, qent_acct (f q) = qent_acct q) -> Forall (dqok d) l -> Forall (dqok d) (map f l).
-Proof.
-  intros Hf HF. apply Forall_map. eapply Forall_impl; [|exact HF].
-  intros q (k & row & A & B & C). exists k, row; repeat split; auto. rewrite Hf; exact A.
-Qed.
-
 Lemma unalias_ref_clean a r : own_live r = false -> own_live (unalias_ref a false r) = false.
 Proof. destruct r as [ct|b]; simpl; auto. destruct (akey_eqb b a); reflexivity. Qed.
 
-Lemma Inv_mark_used sc a s s' r : Inv s -> do_mark_used sc a s = (s', r) -> Inv s'.
+Lemma Inv_mark_used F sc a s s' r : Inv s -> do_mark_used F sc a s = (s', r) -> Inv s'.
 Proof.
   intros HI. unfold do_mark_used.
   destruct (alookup addr_eqb (sc, a) (m_addrs (sm s))) as [o|] eqn:EL; intros H; inv H; auto.
+  apply Inv_add_gone.
   destruct (Inv_parts _ HI) as [HC HQ].
   apply (Inv_objs s); auto; simpl.
   - apply Coh_unalias; exact HC.
   - intros HW. apply Forall_dqok_map; [apply qent_acct_requeue | auto].
   - intros HL (HA & HB & HC'). repeat split; simpl; auto.
-    + assert (Hct : match o with OKey _ _ ct => ct | OScript _ _ _ => false end = false).
+    + assert (Hct : match o with OKey _ _ ct => ct && negb (f_e_markused F) | OScript _ _ _ => false end = false).
       { pose proof (Forall_snd_lookup addr_eqb addr_eqb_eq addr_clean _ _ _ HB EL) as Ho.
-        destruct o as [imp enc ct|]; [exact Ho | reflexivity]. }
+        destruct o as [imp enc ct|]; [change (ct = false) in Ho; rewrite Ho; reflexivity | reflexivity]. }
       rewrite Hct. apply Forall_map. eapply Forall_impl; [|exact HA].
       intros [k ai] (P1 & P2 & P3). unfold unalias. destruct (fst k =? sc); simpl; [|repeat split; auto].
       repeat split; simpl; auto using unalias_ref_clean.
     + apply Forall_filter; exact HB.
 Qed.
 
-Lemma Inv_invalidate sc acct s s' r : Inv s -> do_invalidate sc acct s = (s', r) -> Inv s'.
+Lemma Inv_invalidate F sc acct s s' r : Inv s -> do_invalidate F sc acct s = (s', r) -> Inv s'.
 Proof.
-  intros HI H; inv H. destruct (Inv_parts _ HI) as [HC HQ].
+  intros HI H; inv H. apply Inv_add_gone. destruct (Inv_parts _ HI) as [HC HQ].
   apply (Inv_objs s); auto; simpl.
   - apply Coh_filter; exact HC.
   - intros HW. apply Forall_dqok_map; [apply qent_acct_orphan | auto].
@@ -811,9 +864,10 @@ Proof. reflexivity. Qed.
 
 Lemma Inv_locked_mem F s salt :
   f_lock_purges_cache F = true -> f_lock_wipes_wscripts F = true -> f_lock_wipes_last F = true ->
+  f_z_mgr F = true ->
   Inv s -> Inv (with_mem s (locked_mem F (sm s) salt)).
 Proof.
-  intros H2 H3 H4 (HK & HC & HQ & HW). unfold Inv, watch, locked, locked_mem. simpl. split; [|split; [|split]].
+  intros H2 H3 H4 HZ (HK & HC & HQ & HW). unfold Inv, watch, locked, locked_mem. simpl. split; [|split; [|split]].
   - destruct HK as [K1 K2 K3 K4]. constructor; simpl; auto.
     intros HWt. destruct (K4 HWt) as (pw & g & A & B & C & D & E & G & I & _).
     exists pw, g. repeat split; auto. discriminate.
@@ -822,13 +876,23 @@ Proof.
   - intros _. apply (Wiped_lock_mem F (mem_keys (sm s) (with_salt (mk (sm s)) salt))); assumption.
 Qed.
 
+(* lock() was just run on the memory of [s] (whatever the salt); what it
+   dropped has joined [gone] *)
+Lemma Inv_lock_state F s s' salt :
+  facts_ok F -> Inv s -> sd s' = sd s -> sm s' = locked_mem F (sm s) salt -> Inv s'.
+Proof.
+  intros (_ & H2 & H3 & H4 & _ & _ & _ & _ & _ & _ & _ & _ & _ & HZ) HI Hd Hm.
+  apply (Inv_upto_gone (with_mem s (locked_mem F (sm s) salt))); auto.
+  apply Inv_locked_mem; auto.
+Qed.
+
 Lemma Inv_lock F s s' r :
   facts_ok F -> Inv s -> do_lock F s = (s', r) -> Inv s'.
 Proof.
-  intros (_ & H2 & H3 & H4 & _) HI. unfold do_lock.
+  intros HF HI. unfold do_lock.
   destruct (watch s); [intros H; inv H; auto|].
   destruct (locked s); intros H; inv H; auto.
-  rewrite lock_mem_as_locked_mem. apply Inv_locked_mem; auto.
+  apply (Inv_lock_state F s _ (k_salt (mk (sm s)))); auto.
 Qed.
 
 Lemma salt_after_nonempty salt p : p <> empty_pass -> salt_after salt p = salt.
@@ -897,24 +961,24 @@ Qed.
 Lemma Inv_unlock F p s s' r :
   facts_ok F -> Inv s -> do_unlock F p s = (s', r) -> Inv s'.
 Proof.
-  intros (_ & H2 & H3 & H4 & _ & F6 & _) HI. unfold do_unlock.
+  intros HFok HI. pose proof HFok as (_ & H2 & H3 & H4 & _ & F6 & _). unfold do_unlock.
   destruct (k_watch (mk (sm s))) eqn:EW; [intros H; inv H; auto|].
   pose proof HI as (HK & HC & HQ & HWp). destruct HK as [K1 K2 K3 K4].
   destruct (K4 EW) as (pw & g & A & B & C & D & E & G & I & J).
   destruct (k_locked (mk (sm s))) eqn:EL; simpl.
   - (* locked: slow path *)
     rewrite A. destruct (pw =? p) eqn:EP; simpl.
-    2:{ intros H; inv H. rewrite lock_mem_as_locked_mem. apply Inv_locked_mem; auto. }
+    2:{ intros H; inv H. apply (Inv_lock_state F s _ (k_salt (mk (sm s)))); auto. }
     rewrite C. rewrite N.eqb_refl. simpl.
     destruct (if f_unlock_preloads F then preload F (m_queue (sm s)) s else Some s) as [s0|] eqn:EPre.
-    2:{ intros H; inv H. rewrite lock_mem_as_locked_mem. apply Inv_locked_mem; auto. }
+    2:{ intros H; inv H. apply (Inv_lock_state F s _ (k_salt (mk (sm s)))); auto. }
     assert (HS0 : Inv s0 /\ sd s0 = sd s /\ mk (sm s0) = mk (sm s)).
     { destruct (f_unlock_preloads F).
       - destruct (preload_spec _ _ _ _ F6 HI EPre) as (X & Y & _ & Z & _). auto.
       - inv EPre. auto. }
     destruct HS0 as (HI0 & Hd0 & Hk0).
     destruct (negb (f_unlock_skips_keyless F) && existsb _ _).
-    { intros H; inv H. rewrite lock_mem_as_locked_mem. apply Inv_locked_mem; auto. }
+    { intros H; inv H. apply (Inv_lock_state F s0 _ (k_salt (mk (sm s0)))); auto. }
     destruct (negb (forallb _ _)); [intros H; inv H; auto|].
     intros H; inv H. apply N.eqb_eq in EP; subst p.
     destruct (Inv_parts _ HI0) as [HC0 _].
@@ -937,9 +1001,7 @@ Proof.
       * exact HQ.
       * intros HL'. congruence.
     + intros H; inv H.
-      change (lock_mem F (mem_keys (sm s) (with_salt (mk (sm s)) (salt_after (k_salt (mk (sm s))) p))))
-        with (locked_mem F (sm s) (salt_after (k_salt (mk (sm s))) p)).
-      apply Inv_locked_mem; auto.
+      apply (Inv_lock_state F s _ (salt_after (k_salt (mk (sm s))) p)); auto.
 Qed.
 
 Lemma Inv_change_priv F old new s s' r :
@@ -1004,7 +1066,7 @@ Qed.
 
 Lemma Inv_convert F s s' r : facts_ok F -> Inv s -> do_convert F s = (s', r) -> Inv s'.
 Proof.
-  intros (_ & H2 & H3 & H4 & _) HI. unfold do_convert.
+  intros (_ & H2 & H3 & H4 & _ & _ & _ & _ & _ & _ & _ & _ & _ & HZ) HI. unfold do_convert.
   destruct (watch s) eqn:EW; [intros H; inv H; auto|].
   set (m0 := if locked s then sm s else lock_mem F (sm s)).
   assert (HL0 : k_locked (mk m0) = true).
@@ -1030,7 +1092,7 @@ Qed.
 
 Theorem Inv_step F s o s' r : facts_ok F -> Inv s -> step F s o = (s', r) -> Inv s'.
 Proof.
-  intros HF HI. pose proof HF as (F1 & F2 & F3 & F4 & F5 & F6 & F7 & F8 & F9).
+  intros HF HI. pose proof HF as (F1 & F2 & F3 & F4 & F5 & F6 & F7 & F8 & F9 & _).
   destruct o; simpl; intros H.
   - eapply Inv_open; eauto.
   - eapply Inv_unlock; eauto.
@@ -1048,6 +1110,7 @@ Proof.
   - eapply Inv_script; eauto.
   - eapply Inv_derive; eauto.
   - eapply Inv_derive_cache; eauto.
+  - eapply Inv_cache_fill; eauto.
   - eapply Inv_crypt; eauto.
   - eapply Inv_crypt; eauto.
   - eapply Inv_convert; eauto.
@@ -1232,9 +1295,10 @@ Proof. intros HL HS. split; [apply script_access_locked; auto | reflexivity]. Qe
 
 Lemma lock_clears F s s' :
   f_lock_purges_cache F = true -> f_lock_wipes_wscripts F = true -> f_lock_wipes_last F = true ->
+  f_z_mgr F = true ->
   do_lock F s = (s', ROk) -> locked s' = true /\ wiped (sm s') = true.
 Proof.
-  intros H2 H3 H4. unfold do_lock. destruct (watch s); [discriminate|]. destruct (locked s); [discriminate|].
+  intros H2 H3 H4 HZ. unfold do_lock. destruct (watch s); [discriminate|]. destruct (locked s); [discriminate|].
   intros H; inv H. split; [reflexivity|]. apply wiped_iff. apply Wiped_lock_mem; assumption.
 Qed.
 
@@ -1271,7 +1335,7 @@ Lemma unlock_current F s :
   exists pw s', cur_pass s = Some pw /\ step F s (OpUnlock pw) = (s', ROk) /\
                 locked s' = false /\ watch s' = false /\ sd s' = sd s.
 Proof.
-  intros (_ & _ & _ & _ & F5 & F6 & _ & _ & F9) HI HW. pose proof HI as (HK & HC & HQ & _). destruct HK as [_ _ _ K4].
+  intros (_ & _ & _ & _ & F5 & F6 & _ & _ & F9 & _) HI HW. pose proof HI as (HK & HC & HQ & _). destruct HK as [_ _ _ K4].
   destruct (K4 HW) as (pw & g & A & B & C & D & E & G & I & J).
   exists pw. simpl. unfold do_unlock. unfold watch in HW. rewrite HW.
   destruct (k_locked (mk (sm s))) eqn:EL; simpl.
@@ -1300,7 +1364,7 @@ Lemma unlock_other F s p :
   exists s', step F s (OpUnlock p) = (s', RWrongPass) /\
              locked s' = true /\ wiped (sm s') = true /\ sd s' = sd s.
 Proof.
-  intros (_ & F2 & F3 & F4 & _) HI HW HP. pose proof HI as (HK & _). destruct HK as [_ _ _ K4].
+  intros (_ & F2 & F3 & F4 & _ & _ & _ & _ & _ & _ & _ & _ & _ & HZ) HI HW HP. pose proof HI as (HK & _). destruct HK as [_ _ _ K4].
   destruct (K4 HW) as (pw & g & A & B & C & D & E & G & I & J).
   assert (HNE : (pw =? p) = false).
   { apply N.eqb_neq. intros ->. apply HP. unfold cur_pass. rewrite B. reflexivity. }
@@ -1350,6 +1414,23 @@ Proof.
   destruct (negb (forallb _ _)); intros H; inv H; auto.
 Qed.
 
+Lemma derive_cache_sd F sc acct br idx s s' r : do_derive_cache F sc acct br idx s = (s', r) -> sd s' = sd s.
+Proof. unfold do_derive_cache. dmatch; intros H; inv H; reflexivity. Qed.
+
+Lemma cache_fill_loop_sd F sc acct br n : forall base s s' r, cache_fill_loop F sc acct br base n s = (s', r) -> sd s' = sd s.
+Proof.
+  induction n as [|n IH]; intros base s s' r; simpl; [intros H; inv H; reflexivity|].
+  destruct (do_derive_cache F sc acct br base s) as [s1 r1] eqn:E.
+  pose proof (derive_cache_sd _ _ _ _ _ _ _ _ E) as Hd.
+  destruct r1; try (intros H; inv H; exact Hd). intros H. rewrite <- Hd. eapply IH; eauto.
+Qed.
+
+Lemma cache_fill_sd F sc acct br n base s s' r : cache_fill F sc acct br base n s = (s', r) -> sd s' = sd s.
+Proof.
+  unfold cache_fill. match goal with |- context [if ?c then _ else _] => destruct c end;
+    [intros H; inv H; reflexivity | apply cache_fill_loop_sd].
+Qed.
+
 Lemma step_keeps_priv F s o s' r :
   keeps_priv o = true -> step F s o = (s', r) ->
   d_priv (dk (sd s')) = d_priv (dk (sd s)) /\ d_watch (dk (sd s')) = d_watch (dk (sd s)).
@@ -1379,10 +1460,11 @@ Proof.
   - unfold do_derive. destruct (load_acct F sc acct s) as [[s1 ai]|] eqn:E; [|intros H; inv H; auto].
     destruct (load_acct_spec _ _ _ _ _ _ E) as (Hd & _).
     dmatch; intros H; inv H; simpl; rewrite ?Hd; auto.
-  - unfold do_derive_cache. dmatch; intros H; inv H; auto.
+  - intros H. rewrite (derive_cache_sd _ _ _ _ _ _ _ _ H). auto.
+  - intros H. rewrite (cache_fill_sd _ _ _ _ _ _ _ _ _ H). auto.
   - unfold do_crypt. dmatch; intros H; inv H; auto.
   - unfold do_crypt. dmatch; intros H; inv H; auto.
-  - unfold do_mark_used. dmatch; intros H; inv H; auto.
+  - unfold do_mark_used. destruct (alookup addr_eqb (sc, a) (m_addrs (sm s))); intros H; inv H; auto.
   - unfold do_foreach. destruct (filter _ _); [intros H; inv H; auto|].
     destruct (load_acct F sc acct s) as [[s1 ai]|] eqn:E; [|intros H; inv H; auto].
     destruct (load_acct_spec _ _ _ _ _ _ E) as (Hd & _).
@@ -1599,5 +1681,291 @@ Qed.
 
 Theorem lock_clears_step F s s' :
   f_lock_purges_cache F = true -> f_lock_wipes_wscripts F = true -> f_lock_wipes_last F = true ->
+  f_z_mgr F = true ->
   step F s OpLock = (s', ROk) -> locked s' = true /\ wiped (sm s') = true.
 Proof. intros; eapply lock_clears; eauto. Qed.
+
+(* ------------------------------------------------------------------ (iii) the buffers the manager has dropped *)
+
+(* Every buffer that leaves the manager's state is recorded in [gone] and stays
+   there (only a restart, which replaces the manager, starts a new record):
+   the memory clause of the property is [wiped_all], not only [wiped]. *)
+
+Definition dead (e : gclass * bool) : Prop := snd e = false.
+
+Definition zero_ok (F : facts) : Prop :=
+  f_z_acct F = true /\ f_z_key F = true /\ f_z_script F = true /\ f_z_cache F = true.
+
+Lemma facts_ok_zero F : facts_ok F -> zero_ok F.
+Proof. intros (_ & _ & _ & _ & _ & _ & _ & _ & _ & A & B & C & D & _). repeat split; assumption. Qed.
+
+(* a dropped buffer that is dead - or a derived key pushed out of the LRU,
+   which has no eviction hook (fact f_e_lru; a separate matter: the cache is a
+   third-party container) *)
+Definition okent (F : facts) (e : gclass * bool) : Prop :=
+  dead e \/ (fst e = GCache /\ f_e_lru F = false).
+
+Lemma dead_okent F l : Forall dead l -> Forall (okent F) l.
+Proof. apply Forall_impl. intros e H; left; exact H. Qed.
+
+(* [gone] only grows, and what is added is dead when the code zeroes what it drops *)
+Definition grows (F : facts) (s s' : state) : Prop :=
+  exists g, gone s' = gone s ++ g /\ (zero_ok F -> evict_ok F -> Forall (okent F) g).
+
+Lemma grows_same F s s' : gone s' = gone s -> grows F s s'.
+Proof. intros H. exists []. rewrite app_nil_r. split; [exact H | intros; constructor]. Qed.
+
+Lemma grows_refl F s : grows F s s.
+Proof. apply grows_same; reflexivity. Qed.
+
+Lemma grows_trans F s1 s2 s3 : grows F s1 s2 -> grows F s2 s3 -> grows F s1 s3.
+Proof.
+  intros (g1 & E1 & D1) (g2 & E2 & D2). exists (g1 ++ g2). split.
+  - rewrite E2, E1, app_assoc. reflexivity.
+  - intros HZ HE. apply Forall_app; split; auto.
+Qed.
+
+Lemma grows_add F s g : (zero_ok F -> evict_ok F -> Forall (okent F) g) -> grows F s (add_gone s g).
+Proof. intros H. exists g. split; [reflexivity | exact H]. Qed.
+
+Lemma grows_add_to F s s1 g :
+  gone s1 = gone s -> (zero_ok F -> evict_ok F -> Forall (okent F) g) -> grows F s (add_gone s1 g).
+Proof. intros E H. exists g. split; [simpl; rewrite E; reflexivity | exact H]. Qed.
+
+Lemma load_acct_gone F sc acct s s1 ai : load_acct F sc acct s = Some (s1, ai) -> gone s1 = gone s.
+Proof. unfold load_acct. dmatch; intros H; inv H; reflexivity. Qed.
+
+Lemma load_addr_gone F sc a s s1 o : load_addr F sc a s = Some (s1, o) -> gone s1 = gone s.
+Proof.
+  unfold load_addr. destruct (alookup addr_eqb (sc, a) (m_addrs (sm s))); [intros H; inv H; reflexivity|].
+  destruct (alookup addr_eqb (sc, a) (d_addrs (sd s))) as [[|hp|k sec]|]; try discriminate.
+  - destruct a as [acct br idx| |]; try discriminate.
+    destruct (load_acct F sc acct s) as [[s0 ai]|] eqn:E; [|discriminate].
+    intros H; inv H. simpl. eapply load_acct_gone; eauto.
+  - intros H; inv H; reflexivity.
+  - intros H; inv H; reflexivity.
+Qed.
+
+Lemma preload_gone F qs : forall s s0, preload F qs s = Some s0 -> gone s0 = gone s.
+Proof.
+  induction qs as [|q qs IH]; intros s s0 H; simpl in H; [inv H; reflexivity|].
+  destruct (qent_acct q) as [[sc acct]|]; [|eauto].
+  destruct (load_acct F sc acct s) as [[s1 ai]|] eqn:E; [|discriminate].
+  rewrite <- (load_acct_gone _ _ _ _ _ _ E). eauto.
+Qed.
+
+(* what lock() drops is dead when it zeroes first *)
+Lemma lock_residue_dead F m : zero_ok F -> Forall dead (lock_residue F m).
+Proof.
+  intros (ZA & ZK & ZS & ZC). unfold lock_residue. repeat (apply Forall_app; split).
+  - apply Forall_flat_map. apply Forall_forall. intros [k ai] _. unfold ainfo_residue; simpl.
+    repeat (apply Forall_app; split).
+    + destruct (ai_priv ai); [|constructor]. constructor; [|constructor]. unfold dead; simpl. rewrite ZA; reflexivity.
+    + unfold own_residue. destruct (ai_last_ext ai) as [[|]|]; try constructor.
+      destruct (f_lock_wipes_last F); constructor; [|constructor]. unfold dead; simpl. rewrite ZK; reflexivity.
+    + unfold own_residue. destruct (ai_last_int ai) as [[|]|]; try constructor.
+      destruct (f_lock_wipes_last F); constructor; [|constructor]. unfold dead; simpl. rewrite ZK; reflexivity.
+  - apply Forall_flat_map. apply Forall_forall. intros [k o] _. unfold aobj_residue; simpl.
+    destruct o as [imp enc [|] | [| |] sec [|]]; try constructor;
+      try (destruct (f_lock_wipes_wscripts F); constructor); try constructor;
+      unfold dead; simpl; rewrite ?ZK, ?ZS; simpl; try apply andb_false_r; reflexivity.
+  - destruct (f_lock_purges_cache F); [|constructor].
+    apply Forall_map. apply Forall_forall. intros p _. unfold dead; simpl. rewrite ZC; reflexivity.
+Qed.
+
+Lemma grows_lock_state F s s0 m : gone s0 = gone s -> grows F s (lock_state F s0 m).
+Proof.
+  intros E. exists (lock_residue F m). split; [simpl; rewrite E; reflexivity|].
+  intros HZ _. apply dead_okent, lock_residue_dead; exact HZ.
+Qed.
+
+Lemma last_gone_dead w r : w = true -> Forall dead (last_gone w r).
+Proof. intros ->. destruct r as [ct|k]; simpl; constructor; [|constructor]. unfold dead; simpl. apply andb_false_r. Qed.
+
+Lemma queue_gone_dead F m q : f_e_unlock F = true -> Forall dead (queue_gone F m q).
+Proof.
+  intros HE. assert (HG : Forall dead [(GKey, negb (f_e_unlock F))]).
+  { constructor; [|constructor]. unfold dead; simpl. rewrite HE; reflexivity. }
+  unfold queue_gone. destruct q as [sc a|sc acct i|sc acct]; auto.
+  - destruct (alookup addr_eqb (sc, a) (m_addrs m)) as [[imp enc ct|k sec ct]|]; auto.
+  - destruct (alookup pair_eqb (sc, acct) (m_accts m)); auto.
+Qed.
+
+Lemma grows_unlock F p s s' r : do_unlock F p s = (s', r) -> grows F s s'.
+Proof.
+  unfold do_unlock.
+  destruct (k_watch (mk (sm s))); [intros H; inv H; apply grows_refl|].
+  destruct (negb (k_locked (mk (sm s)))).
+  { destruct (k_hashed (mk (sm s))) as [[hs hp]|]; [destruct ((hs =? k_salt (mk (sm s))) && (hp =? p))|];
+      intros H; inv H; try (apply grows_same; reflexivity); apply grows_lock_state; reflexivity. }
+  destruct (k_priv (mk (sm s))) as [[pw g]|]; [|intros H; inv H; apply grows_refl].
+  destruct (negb (pw =? p)); [intros H; inv H; apply grows_lock_state; reflexivity|].
+  destruct (k_cpriv_enc (mk (sm s))) as [g'|]; [|intros H; inv H; apply grows_lock_state; reflexivity].
+  destruct (negb (g' =? g)); [intros H; inv H; apply grows_lock_state; reflexivity|].
+  destruct (if f_unlock_preloads F then preload F (m_queue (sm s)) s else Some s) as [s0|] eqn:EP;
+    [|intros H; inv H; apply grows_lock_state; reflexivity].
+  assert (Hg : gone s0 = gone s).
+  { destruct (f_unlock_preloads F); [eapply preload_gone; eauto | inv EP; reflexivity]. }
+  destruct (negb (f_unlock_skips_keyless F) && existsb _ _); [intros H; inv H; apply grows_lock_state; exact Hg|].
+  destruct (negb (forallb _ _)); intros H; inv H; [apply grows_refl|].
+  apply grows_add_to; [exact Hg|]. intros _ (_ & _ & _ & HE). apply dead_okent.
+  apply Forall_flat_map. apply Forall_forall. intros q _. apply queue_gone_dead; exact HE.
+Qed.
+
+Lemma grows_derive_cache F sc acct br idx s s' r : do_derive_cache F sc acct br idx s = (s', r) -> grows F s s'.
+Proof.
+  unfold do_derive_cache.
+  destruct (f_cache_checked F && k_watch (mk (sm s))); [intros H; inv H; apply grows_refl|].
+  destruct (f_cache_checked F && k_locked (mk (sm s))); [intros H; inv H; apply grows_refl|].
+  destruct (existsb _ _); [intros H; inv H; apply grows_same; reflexivity|].
+  destruct (alookup pair_eqb (sc, acct) (m_accts (sm s))) as [ai|]; [|intros H; inv H; apply grows_refl].
+  destruct (negb (k_locked (mk (sm s))) && negb (k_watch (mk (sm s))) && ai_priv ai); intros H; inv H; [|apply grows_refl].
+  apply grows_add_to; [reflexivity|]. intros _ _.
+  destruct (f_cache_cap F <=? _); constructor; [|constructor]. unfold okent, dead; simpl.
+  destruct (f_e_lru F); [left; reflexivity | right; split; reflexivity].
+Qed.
+
+Lemma grows_cache_fill_loop F sc acct br n : forall base s s' r, cache_fill_loop F sc acct br base n s = (s', r) -> grows F s s'.
+Proof.
+  induction n as [|n IH]; intros base s s' r; simpl; [intros H; inv H; apply grows_refl|].
+  destruct (do_derive_cache F sc acct br base s) as [s1 r1] eqn:E.
+  pose proof (grows_derive_cache _ _ _ _ _ _ _ _ E) as G1.
+  destruct r1; try (intros H; inv H; exact G1). intros H. eapply grows_trans; [exact G1 | eapply IH; eauto].
+Qed.
+
+Lemma grows_cache_fill F sc acct br n base s s' r : cache_fill F sc acct br base n s = (s', r) -> grows F s s'.
+Proof.
+  unfold cache_fill. match goal with |- context [if ?c then _ else _] => destruct c end;
+    [|apply grows_cache_fill_loop].
+  intros H; inv H. apply grows_add_to; [reflexivity|]. intros _ _.
+  apply Forall_forall. intros e He. apply repeat_spec in He. subst e. unfold okent, dead; simpl.
+  destruct (f_e_lru F); [left; reflexivity | right; split; reflexivity].
+Qed.
+
+(* every operation but a restart: [gone] grows, by dead entries when the code
+   zeroes what it drops *)
+Theorem step_grows F s o s' r :
+  (forall p, o <> OpOpen p) -> step F s o = (s', r) -> grows F s s'.
+Proof.
+  intros HO. destruct o; simpl.
+  - exfalso. eapply HO; reflexivity.
+  - apply grows_unlock.
+  - unfold do_lock. dmatch; intros H; inv H; try apply grows_refl. apply grows_lock_state; reflexivity.
+  - unfold do_change_priv. dmatch; intros H; inv H; try apply grows_refl; apply grows_same; reflexivity.
+  - unfold do_change_pub. dmatch; intros H; inv H; try apply grows_refl; apply grows_same; reflexivity.
+  - unfold do_new_account. dmatch; intros H; inv H; try apply grows_refl; apply grows_same; reflexivity.
+  - unfold do_new_watch_account. intros H; inv H. apply grows_same; reflexivity.
+  - unfold do_acct_props. destruct (load_acct F sc acct s) as [[s1 ai]|] eqn:E; intros H; inv H; [|apply grows_refl].
+    apply grows_same. eapply load_acct_gone; eauto.
+  - unfold do_next_addr. destruct (load_acct F sc acct s) as [[s1 ai]|] eqn:E; [|intros H; inv H; apply grows_refl].
+    pose proof (load_acct_gone _ _ _ _ _ _ E) as Hg.
+    destruct (alookup pair_eqb (sc, acct) (d_accts (sd s1))) as [row|]; [|intros H; inv H; apply grows_refl].
+    match goal with |- context [if ?c then (s, RPanic) else _] => destruct c end; intros H; inv H; [apply grows_refl|].
+    eexists; split; [simpl; rewrite Hg; reflexivity|]. intros _ (_ & _ & HE & _). apply dead_okent, last_gone_dead; exact HE.
+  - unfold do_import_priv. dmatch; intros H; inv H; try apply grows_refl; apply grows_same; reflexivity.
+  - unfold do_import_script. dmatch; intros H; inv H; try apply grows_refl; apply grows_same; reflexivity.
+  - unfold do_load_addr. destruct (load_addr F sc a s) as [[s1 o]|] eqn:E; intros H; inv H; [|apply grows_refl].
+    apply grows_same. eapply load_addr_gone; eauto.
+  - unfold do_priv_key. destruct (load_addr F sc a s) as [[s1 o]|] eqn:E; [|intros H; inv H; apply grows_refl].
+    pose proof (load_addr_gone _ _ _ _ _ _ E) as Hg.
+    dmatch; intros H; inv H; apply grows_same; simpl; exact Hg.
+  - unfold do_script. destruct (load_addr F sc a s) as [[s1 o]|] eqn:E; [|intros H; inv H; apply grows_refl].
+    pose proof (load_addr_gone _ _ _ _ _ _ E) as Hg.
+    dmatch; intros H; inv H; apply grows_same; simpl; exact Hg.
+  - unfold do_derive. destruct (load_acct F sc acct s) as [[s1 ai]|] eqn:E; intros H; inv H; [|apply grows_refl].
+    apply grows_same. simpl. eapply load_acct_gone; eauto.
+  - apply grows_derive_cache.
+  - apply grows_cache_fill.
+  - unfold do_crypt. dmatch; intros H; inv H; apply grows_refl.
+  - unfold do_crypt. dmatch; intros H; inv H; apply grows_refl.
+  - unfold do_convert. destruct (watch s); intros H; inv H; [apply grows_refl|].
+    eexists; split; [reflexivity|]. intros HZ _. destruct (locked s); [constructor | apply dead_okent, lock_residue_dead; exact HZ].
+  - unfold do_mark_used. destruct (alookup addr_eqb (sc, a) (m_addrs (sm s))) as [o|]; intros H; inv H; [|apply grows_refl].
+    apply grows_add_to; [reflexivity|]. intros _ (HE & _). apply dead_okent.
+    destruct (aliased sc a (m_accts (sm s))); constructor; [|constructor]. unfold dead; simpl. rewrite HE. apply andb_false_r.
+  - unfold do_foreach. destruct (filter _ _); [intros H; inv H; apply grows_refl|].
+    destruct (load_acct F sc acct s) as [[s1 ai]|] eqn:E; intros H; inv H; [|apply grows_refl].
+    apply grows_same. simpl. eapply load_acct_gone; eauto.
+  - unfold do_invalidate. intros H; inv H. apply grows_add_to; [reflexivity|]. intros _ (_ & HE & _). apply dead_okent.
+    destruct (alookup pair_eqb (sc, acct) (m_accts (sm s))) as [ai|]; [|constructor].
+    constructor; [unfold dead; simpl; rewrite HE; apply andb_false_r|].
+    apply Forall_app; split; apply last_gone_dead; exact HE.
+  - unfold do_held_priv_key. intros H; inv H. apply grows_refl.
+  - unfold do_held_script. intros H; inv H. apply grows_refl.
+Qed.
+
+(* a restart replaces the manager: a new, empty record - or nothing happened *)
+Lemma open_gone F p s s' r : step F s (OpOpen p) = (s', r) -> gone s' = [] \/ s' = s.
+Proof. simpl. unfold do_open. dmatch; intros H; inv H; auto. Qed.
+
+Definition GoneOk (F : facts) (s : state) : Prop := Forall (okent F) (gone s).
+
+Lemma GoneOk_step F s o s' r :
+  zero_ok F -> evict_ok F -> GoneOk F s -> step F s o = (s', r) -> GoneOk F s'.
+Proof.
+  unfold GoneOk. intros HZ HE HG H.
+  destruct o;
+    try (match goal with H : step F s ?o = _ |- _ =>
+           assert (HO : forall p, o <> OpOpen p) by (intros; discriminate);
+           destruct (step_grows F s o s' r HO H) as (g & Eg & D) end;
+         rewrite Eg; apply Forall_app; split; [exact HG | apply D; assumption]).
+  destruct (open_gone _ _ _ _ _ H) as [Eg | ->]; [rewrite Eg; constructor | exact HG].
+Qed.
+
+Lemma GoneOk_exec F ops : forall s,
+  zero_ok F -> evict_ok F -> GoneOk F s -> GoneOk F (exec F s ops).
+Proof.
+  induction ops as [|o ops IH]; intros s HZ HE HG; [exact HG|].
+  rewrite exec_cons. destruct (step F s o) as [s1 r] eqn:E. simpl.
+  apply IH; auto. eapply GoneOk_step; eauto.
+Qed.
+
+Lemma GoneOk_but_lru F s : GoneOk F s -> gone_dead_but_lru s = true.
+Proof.
+  unfold GoneOk, gone_dead_but_lru. rewrite Forall_forall, forallb_forall. intros H e He.
+  destruct (H e He) as [D | [C _]].
+  - unfold dead in D. rewrite D. reflexivity.
+  - rewrite C. apply orb_true_r.
+Qed.
+
+Lemma GoneOk_dead F s : f_e_lru F = true -> GoneOk F s -> gone_dead s = true.
+Proof.
+  unfold GoneOk, gone_dead. rewrite Forall_forall, forallb_forall. intros HL H e He.
+  destruct (H e He) as [D | [_ C]]; [|congruence]. unfold dead in D. rewrite D. reflexivity.
+Qed.
+
+(* (iii), complete: for all histories, when every site that drops an object
+   from the manager's state wipes it first, NO buffer the manager ever owned
+   holds clear text once it is locked or watching-only - reachable from the
+   manager ([wiped]) or not ([gone]); the keys the third-party LRU pushes out
+   are covered when fact f_e_lru holds as well *)
+Theorem locked_holds_no_cleartext_anywhere F nsc pub priv ops :
+  facts_ok F -> evict_ok F -> priv <> empty_pass ->
+  let s := exec F (init nsc pub priv) ops in
+  gone_dead_but_lru s = true /\
+  (f_e_lru F = true -> gone_dead s = true /\ (locked s = true \/ watch s = true -> wiped_all s = true)).
+Proof.
+  intros HF HE Hp s.
+  assert (HG : GoneOk F s).
+  { apply GoneOk_exec; auto; [apply facts_ok_zero; exact HF | constructor]. }
+  split; [eapply GoneOk_but_lru; eauto|]. intros HL.
+  pose proof (GoneOk_dead F s HL HG) as HD. split; [exact HD|].
+  intros HLk. unfold wiped_all. rewrite HD, andb_true_r.
+  apply (locked_holds_no_cleartext F nsc pub priv ops); assumption.
+Qed.
+
+(* Lock itself, from ANY state: it cannot reach what was dropped before (the
+   old record is a prefix of the new one), and what it drops itself is dead *)
+Theorem lock_and_dropped F s s' :
+  zero_ok F -> step F s OpLock = (s', ROk) ->
+  exists g, gone s' = gone s ++ g /\ Forall dead g.
+Proof.
+  intros HZ. simpl. unfold do_lock. destruct (watch s); [discriminate|]. destruct (locked s); [discriminate|].
+  intros H; inv H. exists (lock_residue F (sm s)). split; [reflexivity | apply lock_residue_dead; exact HZ].
+Qed.
+
+(* nothing but a restart ever removes or changes an entry of [gone] *)
+Theorem dropped_never_forgotten F s o s' r :
+  (forall p, o <> OpOpen p) -> step F s o = (s', r) -> exists g, gone s' = gone s ++ g.
+Proof. intros HO H. destruct (step_grows F s o s' r HO H) as (g & E & _). exists g; exact E. Qed.
+
